@@ -159,6 +159,9 @@ impl<VM: VMBinding> GCWorker<VM> {
     }
 
     const LOCALLY_CACHED_WORK_PACKETS: usize = 16;
+    /// Verification accessor for the private constant above.
+    #[cfg(feature = "mmtk_verif")]
+    pub const VERIF_LOCALLY_CACHED_WORK_PACKETS: usize = Self::LOCALLY_CACHED_WORK_PACKETS;
 
     /// Add a work packet to the work queue and mark it with a higher priority.
     /// If the bucket is open, the packet will be pushed to the local queue, otherwise it will be
